@@ -118,7 +118,7 @@ class Stack:
 
             if leave_stack:
                 break
-            if isinstance(command, list):
+            if isinstance(command, list) or not command.content.strip():
                 continue
             self.current_line = command
             self.next_line = (
